@@ -8,6 +8,7 @@ import Ntrip.Spec.MsmCodec
 import Ntrip.Model.Range
 import Ntrip.Model.Queue
 import Ntrip.Model.Reader
+import Ntrip.Model.Report
 /-! Operations of the line protocol.  Every branch that rejects input answers `bad-op`
     (never a default value). -/
 namespace Driver
@@ -161,6 +162,10 @@ def handle : List String → String
       let ms := segmentT crc24q (newState T) (In.ofBytes r.1.forwarded)
       s!"stop={showStop r.2} fwd={toHex r.1.forwarded} msgs {ms.length}" ++ String.join (ms.map (fun m => s!" {m.typ}:{toHex m.raw}"))
     | _, _, _, _ => "bad-op"
+  | ["sanitise", h] =>
+    match parseHex h with
+    | some b => "text " ++ toHex ((sanitise (b.map (fun x => Char.ofNat x.toNat))).map (fun c => UInt8.ofNat c.toNat))
+    | none => "bad-op"
   | "queue" :: cap :: ops =>
     match cap.toInt? with
     | some c => joinWith " " (runQueue (CQ.new c) ops)
